@@ -16,6 +16,7 @@ EFMT = SEP + "{error.message}" + SEP + "{error.validator}" + SEP + "\n"
 SCHEMA = {"type": "object", "required": ["a"], "properties": {"b": {"type": "integer"}}, "maxProperties": 2}
 INST = {"valid": {"a": 1, "b": 2}, 1: {"a": 1, "b": "x"}, 2: {"b": "x"}, 3: {"b": "x", "c": 1, "d": 2}}
 D4 = "http://json-schema.org/draft-04/schema#"
+D3 = "http://json-schema.org/draft-03/schema#"
 
 
 class Env(object):
@@ -45,6 +46,13 @@ def materialise(env, schema_state, insts, variant):
     if variant.get("dollar_schema"):
         schema["$schema"] = D4
         schema["additionalProperties"] = False if variant.get("strict") else True
+    if variant.get("root_id"):
+        # a draft 4 document with its own root `id` (not where the file lives) and references into itself, written both
+        # as a bare fragment and relative to that id; the class comes from $schema and honours `id`
+        schema = {"$schema": D4, "id": "http://cli.invalid/dir/root.json", "type": "object", "required": ["a"],
+                  "definitions": {"int": {"type": "integer"}, "any": {}},
+                  "properties": {"b": {"$ref": "#/definitions/int"}, "a": {"$ref": "root.json#/definitions/any"}},
+                  "maxProperties": 2}
     if variant.get("base_uri"):
         schema = {"properties": {"b": {"$ref": "sub-%s.json" % tag}}, "required": ["a"], "type": "object", "maxProperties": 2}
         env.write("sub-%s.json" % tag, json.dumps({"type": "integer"}))
@@ -74,6 +82,8 @@ def materialise(env, schema_state, insts, variant):
         argv += ["--output", "pretty"]
     elif variant.get("custom_format"):
         argv += ["--error-format", EFMT]
+    elif variant.get("empty_format"):
+        argv += ["--error-format", ""]
     if variant.get("explicit_validator"):
         argv += ["--validator", "Draft4Validator"]
     if variant.get("base_uri"):
@@ -198,7 +208,7 @@ def run_case(js, env, schema_state, insts, variant, subprocess_too=False):
     # what the library itself reports for each instance (the CLI must report exactly these, in this order)
     lib_errors = {}
     if schema_obj is not None:
-        cls = js.Draft4Validator if (variant.get("explicit_validator") or variant.get("dollar_schema")) else js.Draft7Validator
+        cls = js.Draft4Validator if (variant.get("explicit_validator") or variant.get("dollar_schema") or variant.get("root_id")) else js.Draft7Validator
         for i, (p, kind) in enumerate(files):
             if kind["k"] in ("valid", "invalid"):
                 inst = json.load(open(p))
@@ -251,7 +261,7 @@ def main(args):
                "checks exit-0-iff-everything-succeeded, every-instance-processed, plain-stdout-empty and monotone exit code, "
                "and exports the expected exit code and record sequences; each run is executed with real files through "
                "cli.run (and a sample through `python -m jsonschema`) in the variants default error format / custom "
-               "--error-format / explicit --validator / class from $schema / explicit --validator against a schema declaring another draft / --base-uri with a relative file reference / "
+               "--error-format / an empty --error-format / a draft 4 schema with a root id and references into itself / explicit --validator / class from $schema / explicit --validator against a schema declaring another draft / --base-uri with a relative file reference / "
                "instance on stdin, stdout and stderr are parsed back into records and each validation error is attributed by "
                "comparison with the library's own iter_errors; plus random longer lists judged by TLC (Trace_C19). "
                "Non-trivial: a valid schema and >= 2 instances of different kinds; distinct by (inputs, variant)." % (2 if quick else 3))
@@ -260,7 +270,7 @@ def main(args):
         raise tlc.MachineryFailure("CLI model violated: " + r.violation)
     ck.add_tlc(r)
     env = Env()
-    variants_plain = [{}, {"custom_format": True}, {"explicit_validator": True, "custom_format": True}, {"dollar_schema": True},
+    variants_plain = [{}, {"custom_format": True}, {"empty_format": True}, {"root_id": True, "custom_format": True}, {"explicit_validator": True, "custom_format": True}, {"dollar_schema": True},
                       {"explicit_validator": True, "dollar_schema7": True, "custom_format": True},
                       {"base_uri": True, "custom_format": True}]
     try:
@@ -281,7 +291,12 @@ def main(args):
                 case["observed"] = got
                 if bool(got["code"]) != bool(ex["code"]):
                     ck.violation("exit_status", case)
-                if got["err"] != ex["err"] or info["parse_problems"]:
+                want_err = ex["err"]
+                if variant.get("empty_format"):
+                    # every validation / schema error is written through the format the user gave -- the empty one:
+                    # only the diagnostics for unreadable / unparsable files remain visible
+                    want_err = [e for e in want_err if e["t"] in ("notfound", "parse")]
+                if got["err"] != want_err or info["parse_problems"]:
                     ck.violation("stderr_records", case)
                 if got["out"] != ex["out"]:
                     ck.violation("stdout_records", case)
